@@ -287,3 +287,47 @@ Fixpoint route_all (retries : nat) (cur : Z) (ps : list pass) : routed :=
   | [] => RPart cur
   | p :: r => match route retries cur p with RPart q => route_all (S retries) q r | RErr e => RErr e end
   end.
+
+(* ---------------------------------------------------------------- the broker worker's buffer *)
+(* brokerProducer.run, the input case, as far as the content of bp.buffer is concerned: which received messages reach
+   buffer.add.  waitForSpace only delays the add (or swaps the buffer for a fresh one first) and is not modelled. *)
+
+Definition is_syn (m : pmsg) : bool := Z.land (pm_flags m) 1 =? 1.
+Definition is_fin (m : pmsg) : bool := Z.land (pm_flags m) 2 =? 2.
+
+(* 0: syn, consumed | 1: bounced to the retry path (needsRetry: closing or currentRetries[topic][partition] set) | 2: goes on to buffer.add *)
+Definition recv_decision (flags : Z) (closing retrying : bool) : Z :=
+  if Z.land flags 1 =? 1 then 0 else if closing || retrying then 1 else 2.
+
+Record bpst := mkBp {
+  bs_set : pset;                 (* bp.buffer *)
+  bs_closing : bool;             (* bp.closing != nil *)
+  bs_retrying : list tpk         (* partitions whose currentRetries entry is non-nil *)
+}.
+Definition retrying (st : bpst) (k : tpk) : bool := existsb (tpk_eqb k) (bs_retrying st).
+Definition refusing (st : bpst) (k : tpk) : bool := bs_closing st || retrying st k.
+Definition clear_retrying (k : tpk) (l : list tpk) : list tpk := filter (fun k' => negb (tpk_eqb k k')) l.
+Fixpoint part_drop (k : tpk) (ps : list (tpk * partset)) : list (tpk * partset) :=
+  match ps with [] => [] | (k', x) :: r => if tpk_eqb k k' then r else (k', x) :: part_drop k r end.
+
+Inductive bp_event :=
+| BRecv (k : tpk) (m : pmsg)            (* msg := <-bp.input *)
+| BRollover (pid pepoch : Z)            (* rollOver: buffer = newProduceSet *)
+| BDrop (k : tpk)                       (* handleSuccess, retriable block: currentRetries set, buffer.dropPartition *)
+| BClosing.                             (* handleError: closing set (the buffer is then rolled over) *)
+
+Definition bp_step (c : pcfg) (st : bpst) (e : bp_event) : bpst :=
+  match e with
+  | BRecv k m =>
+      match recv_decision (pm_flags m) (bs_closing st) (retrying st k) with
+      | 0 => mkBp (bs_set st) (bs_closing st) (clear_retrying k (bs_retrying st))
+      | 1 => if negb (bs_closing st) && is_fin m
+             then mkBp (bs_set st) (bs_closing st) (clear_retrying k (bs_retrying st)) else st
+      | _ => mkBp (fst (ps_add c (bs_set st) k m)) (bs_closing st) (bs_retrying st)
+      end
+  | BRollover pid pepoch => mkBp (new_set pid pepoch) (bs_closing st) (bs_retrying st)
+  | BDrop k => mkBp (mkPSet (part_drop k (s_parts (bs_set st))) (s_pid (bs_set st)) (s_pepoch (bs_set st)))
+                    (bs_closing st) (k :: bs_retrying st)
+  | BClosing => mkBp (bs_set st) true (bs_retrying st)
+  end.
+Definition bp_run (c : pcfg) (st : bpst) (evs : list bp_event) : bpst := fold_left (bp_step c) evs st.
